@@ -7,7 +7,7 @@ import os, sys, glob, json, shutil, subprocess, re, concurrent.futures
 V = os.path.dirname(os.path.dirname(os.path.abspath(__file__)))
 pat = sys.argv[1] if len(sys.argv) > 1 and not sys.argv[1].startswith('--') else 'C*'
 dirs = sorted(glob.glob(os.path.join(V, 'seeded', pat)))
-SCR = '/tmp/seedrun'
+SCR = os.environ.get('SEEDRUN', '/tmp/seedrun_%d' % os.getpid())
 
 def one(d):
     tag = os.path.basename(d)
